@@ -118,6 +118,8 @@ type RW struct {
 	line   []string // short step log (sample)
 	who    map[string]string
 	pgTick int
+	// per listed name: the listing as its owner created it
+	consent map[string]rwSale
 }
 
 // paging: a client paging through the listings this property is about sees what the one-shot listings show (paging.go)
@@ -154,7 +156,7 @@ func NewRW(rc *RunCtx, c *chain.Chain) (*RW, error) {
 		return nil, err
 	}
 	w := &RW{rc: rc, c: c, esc: map[string]sdk.Coins{}, escN: map[string]int{}, escL: map[string]sdk.Coin{}, prev: map[string][]string{},
-		mod: chain.ModuleAddr(rnstypes.ModuleName).String(), pol: pol.String(), seen: map[string]bool{}, who: map[string]string{}}
+		mod: chain.ModuleAddr(rnstypes.ModuleName).String(), pol: pol.String(), seen: map[string]bool{}, who: map[string]string{}, consent: map[string]rwSale{}}
 	for i, a := range c.Accs {
 		w.who[a.Bech] = fmt.Sprintf("a%d", i)
 	}
@@ -745,6 +747,10 @@ func (w *RW) judge(i int, msg sdk.Msg, res chain.TxResult, pre, post *rwState, d
 				w.fail("C08", "buy-without-listing-changed-live-name", "%s", what)
 			case L.Creator != p.Owner:
 				w.fail("C08", "buy-honoured-stale-listing", "listing of %s was created by %s (price %s) but the current owner is %s, who never listed it; %s; balances: %s", k, w.name(L.Creator), L.PriceStr, w.name(p.Owner), what, w.deltaString(d))
+			case ownerChanged && (w.consent[k].Creator != p.Owner || w.consent[k].PriceStr != L.PriceStr):
+				// the listing honoured carries the owner's name but not the terms the owner set when listing: somebody
+				// else rewrote it in between
+				w.fail("C08", "buy-through-listing-the-owner-did-not-create", "listing of %s honoured at %s (creator %s), but the last listing its owner %s created was %+v; %s; balances: %s", k, L.PriceStr, w.name(L.Creator), w.name(p.Owner), w.consent[k], what, w.deltaString(d))
 			}
 			if ownerChanged {
 				if q == nil || q.Owner != signer {
@@ -805,6 +811,19 @@ func (w *RW) judge(i int, msg sdk.Msg, res chain.TxResult, pre, post *rwState, d
 			continue
 		}
 		w.anomaly("listing-vanished", "h=%d %s by %s: listing %s (%+v) vanished", h, rnsDescribe(msg), w.name(signer), k, o)
+	}
+
+	// the terms the owner consented to: recorded when a List signed by the live name's owner leaves a listing in the
+	// owner's name; forgotten when the listing is gone
+	if in.Kind == "List" && P.live(h) && P.Owner == signer {
+		if sl, ok := post.Sales[in.Target]; ok && sl.Creator == signer {
+			w.consent[in.Target] = sl
+		}
+	}
+	for k := range w.consent {
+		if _, still := post.Sales[k]; !still {
+			delete(w.consent, k)
+		}
 	}
 
 	// an accepted Delist withdraws the owner's consent to sell: the listing must be gone, otherwise a later
